@@ -107,7 +107,11 @@ def programs(tier, seed):
     for i in range(k):
         n = rng.choice([3, 6, 10, 15, 20, 30, 40, 60] if tier == 'thorough' else [3, 8, 12, 20, 30, 45])
         depth = rng.choice([2, 4, 6, 8])
-        names, acs = T.rand_adf(rng, n, depth, locality=rng.choice([2, 3, 4]) if n > 8 else None)
+        if i % 4 == 3:
+            names = ['v%d' % j for j in range(n)]
+            acs = {x: T.rand_clause(rng, names) for x in names}
+        elif i % 3 == 2: names, acs = T.rand_adf_structured(rng, n)
+        else: names, acs = T.rand_adf(rng, n, depth, locality=rng.choice([2, 3, 4]) if n > 8 else None)
         facts = [('s', x) for x in names] + [('ac', x) for x in names]
         if rng.random() < 0.6: rng.shuffle(facts)
         txt = T.render(names, acs, rng, order=facts, layout=rng.random() < 0.5)
